@@ -46,6 +46,9 @@ CHECKS["C01"] = dict(text="generated RIDDLE problems (constraint networks; objec
 CHECKS["C02"] = dict(text="whenever oRatio answers 'unsolvable' on a generated problem the verdict is compared with ground truth: the planted assignment/plan the problem was built around, z3 on the constraint-only fragment, and equivalence classes of reformulations",
                      note="'no solution' is only concluded by z3 on the constraint fragment; timeouts are inconclusive",
                      technique="runtime monitoring: differential verdicts against planted solutions and an SMT reference")
+CHECKS["C17"] = dict(text="generated class hierarchies (single/multiple/diamond inheritance, fields with initialisers, constructors with init lists and super-constructor calls, existential object fields), enums with unions, instances and variables declared in interleaved order and ==/!=/field constraints; a reference object model computes instance sets, field values and (by brute force) all satisfying value combinations, which are compared with the state exposed right after read() and with the solution on Debug and Release builds",
+                     note="enum values are identifiable only by identity in the JSON (domains compared by size / inclusion / equality pattern); single-valued enums are not generated",
+                     technique="runtime monitoring: differential execution against a reference object model with brute-force constraint semantics")
 NA_REASON = "check not built yet in this round (planned; see DESIGN.md)"
 
 hooks_commits = subprocess.run(["git", "-C", "/repo", "log", "--format=%h", "--grep=ORATIO_VERIF"], stdout=subprocess.PIPE, text=True).stdout.split()
